@@ -95,6 +95,7 @@ class _V2WRecorder:
         else:
             out = self.real(variance.copy(), tol=tol, dtype=dtype)
         self.calls.append((variance.copy(), out))
+        self.args = getattr(self, "args", []) + [(tol, dtype)]
         return out
 
 
@@ -127,8 +128,26 @@ def h_blockmean(ctx):
     region = (w, ee, s, no)
     e = ctx.reals("e", npts)
     n = ctx.reals("n", npts)
+    xcoord = ctx.reals("x", npts)
+    nn_, ne_ = shape
+    geom = cfg.get("geom", "shape")
+    if geom == "adjust_region":
+        # blocks of exactly the requested size from (W, S); their number is the nearest integer to extent / spacing
+        se, sn = ctx.real("spacing_e"), ctx.real("spacing_n")
+        ctx.assume(se > 0)
+        ctx.assume(sn > 0)
+        ctx.assume(And(gt(ee - w, (ne_ - Fraction(1, 2)) * se), lt(ee - w, (ne_ + Fraction(1, 2)) * se), gt(no - s, (nn_ - Fraction(1, 2)) * sn), lt(no - s, (nn_ + Fraction(1, 2)) * sn)))
+        we_, hn_ = se, sn
+    else:
+        we_, hn_ = (ee - w) / ne_, (no - s) / nn_
+    if geom == "inferred":
+        ctx.assume(And(eq(w, E.smin(list(e))), eq(ee, E.smax(list(e))), eq(s, E.smin(list(n))), eq(no, E.smax(list(n)))))
     for p in range(npts):
-        ctx.assume(stubs.in_block(ctx, e[p], n[p], region, shape, members[p]))
+        i, j = divmod(members[p], ne_)
+        if geom == "inferred":
+            ctx.assume(And(True if j == 0 else gt(e[p], w + j * we_), True if j == ne_ - 1 else lt(e[p], w + (j + 1) * we_), True if i == 0 else gt(n[p], s + i * hn_), True if i == nn_ - 1 else lt(n[p], s + (i + 1) * hn_)))
+        else:
+            ctx.assume(And(gt(e[p], w + j * we_), lt(e[p], w + (j + 1) * we_), gt(n[p], s + i * hn_), lt(n[p], s + (i + 1) * hn_)))
     data = [ctx.reals("d%d" % c, npts) for c in range(ncomp)]
     weights = None
     if mode != "none":
@@ -150,19 +169,29 @@ def h_blockmean(ctx):
     ef, nf = np.ravel(e), np.ravel(n)
     dataf = [np.ravel(d) for d in data]
     weightsf = None if weights is None else [np.ravel(x) for x in weights]
-    bm = vd.BlockMean(shape=shape, region=region, uncertainty=(mode == "uncertainty"), center_coordinates=cfg.get("center", False))
+    gkw = {"shape": shape, "region": region}
+    if geom == "spacing":
+        gkw = {"spacing": ((no - s) / nn_, (ee - w) / ne_), "region": region}
+    elif geom == "adjust_region":
+        gkw = {"spacing": (sn, se), "adjust": "region", "region": region}
+    elif geom == "inferred":
+        gkw = {"shape": shape}
+    keep_extra = cfg.get("drop") is False
+    if keep_extra:
+        gkw["drop_coords"] = False
+    bm = vd.BlockMean(uncertainty=(mode == "uncertainty"), center_coordinates=cfg.get("center", False), **gkw)
     darg = tuple(data) if ncomp > 1 else data[0]
     warg = None if weights is None else (tuple(weights) if ncomp > 1 else weights[0])
     old_v2w = vb.variance_to_weights
     vb.variance_to_weights = rec
     try:
-        coords, mean, wout = bm.filter((e, n), darg, warg)
+        coords, mean, wout = bm.filter((e, n, xcoord.reshape(np.shape(e))) if keep_extra else (e, n), darg, warg)
     finally:
         vb.variance_to_weights = old_v2w
     means = list(mean) if ncomp > 1 else [mean]
     wouts = list(wout) if ncomp > 1 else [wout]
     blocks = sorted(set(members))
-    ctx.claim("one output per non-empty block", And(len(coords) == 2, len(coords[0]) == len(blocks), all(len(m) == len(blocks) for m in means), all(len(x) == len(blocks) for x in wouts)))
+    ctx.claim("one output per non-empty block", And(len(coords) == (3 if keep_extra else 2), len(coords[0]) == len(blocks), all(len(m) == len(blocks) for m in means), all(len(x) == len(blocks) for x in wouts)))
     if len(coords[0]) != len(blocks):
         return
     nn, ne = shape
@@ -185,15 +214,18 @@ def h_blockmean(ctx):
             if c == 0:
                 if cfg.get("center"):
                     i, j = divmod(b, ne)
-                    ctx.claim("center_coordinates gives the centre of that very block", And(eq(coords[0][bi], w + (j + Fraction(1, 2)) * (ee - w) / ne), eq(coords[1][bi], s + (i + Fraction(1, 2)) * (no - s) / nn)))
+                    ctx.claim("center_coordinates gives the centre of that very block", And(eq(coords[0][bi], w + (j + Fraction(1, 2)) * we_), eq(coords[1][bi], s + (i + Fraction(1, 2)) * hn_)))
                 else:
                     ce = sum(ef[p] for p in idx) / len(idx)
                     cn = sum(nf[p] for p in idx) / len(idx)
                     ctx.claim("block coordinates are the mean of the member coordinates", And(eq(coords[0][bi], ce), eq(coords[1][bi], cn)))
+                if keep_extra and len(coords) == 3:
+                    ctx.claim("with drop_coords=False the extra coordinate is averaged over the members too", eq(coords[2][bi], sum(xcoord[p] for p in idx) / len(idx)))
         exp_var.append(ev)
     if True:
         calls = rec.calls
         ctx.claim("variance_to_weights called once per component", len(calls) == ncomp)
+        ctx.claim("variance_to_weights is used with its documented defaults (tol=1e-15, float64)", all(t == 1e-15 and str(dt) == "float64" for t, dt in getattr(rec, "args", [])))
         if len(calls) != ncomp:
             return
         for c in range(ncomp):
@@ -232,6 +264,14 @@ def h_blockmean_rejects(ctx):
         ctx.claim("uncertainty propagation without weights is rejected", False)
     except ValueError:
         ctx.claim("uncertainty propagation without weights is rejected", True)
+    for label, call in (
+        ("two components, no weights", lambda: vd.BlockMean(shape=(1, 1), uncertainty=True).filter((e, n), (d, d))),
+    ):
+        try:
+            call()
+            ctx.claim("uncertainty propagation is rejected unless every component has weights: %s" % label, False)
+        except ValueError:
+            ctx.claim("uncertainty propagation is rejected unless every component has weights: %s" % label, True)
 
 
 def _cfg_v2w(tier, seed):
@@ -250,6 +290,10 @@ def _cfg_bm(tier, seed):
     out.append({"shape": (1, 2), "members": [1, 0, 1], "ncomp": 2, "mode": "none"})
     out.append({"shape": (1, 2), "members": [1, 0, 1, 0], "ncomp": 2, "mode": "uncertainty"})
     out.append({"shape": (1, 2), "members": [1, 0, 0, 1], "ncomp": 2, "mode": "weighted", "mem": "F", "pshape": (2, 2)})
+    out.append({"shape": (2, 2), "members": [3, 1, 3], "ncomp": 1, "mode": "none", "center": True})
+    out.append({"shape": (1, 2), "members": [1, 0, 1], "ncomp": 1, "mode": "weighted", "geom": "adjust_region", "center": True})
+    out.append({"shape": (1, 2), "members": [0, 1, 1], "ncomp": 1, "mode": "uncertainty", "geom": "spacing", "drop": False})
+    out.append({"shape": (2, 1), "members": [1, 0, 1], "ncomp": 1, "mode": "none", "geom": "inferred"})
     if tier == "thorough":
         out.append({"shape": (2, 2), "members": [0, 3, 3, 1], "ncomp": 3, "mode": "uncertainty", "center": True})
         out.append({"shape": (2, 2), "members": [0, 3, 3, 1], "ncomp": 3, "mode": "none"})
